@@ -74,3 +74,31 @@ Definition py_slice (v a b : pv) : res pv :=
 Definition py_len (v : pv) : res pv := match v with VBytes l => Ok (VInt (zlen l)) | _ => Err EType end.
 (* int.from_bytes(v, byteorder="big") *)
 Definition py_from_bytes_big (v : pv) : res pv := match v with VBytes l => Ok (VInt (from_be l)) | _ => Err EType end.
+
+(* a < b, a > b on integers (a float operand is outside this evaluator, as for ==) *)
+Definition py_lt (a b : pv) : res pv :=
+  match as_int a, as_int b with
+  | Some x, Some y => Ok (VBool (x <? y))
+  | _, _ => Err ENotImpl
+  end.
+Definition py_gt (a b : pv) : res pv :=
+  match as_int a, as_int b with
+  | Some x, Some y => Ok (VBool (x >? y))
+  | _, _ => Err ENotImpl
+  end.
+(* int.to_bytes(x, n, "big"): OverflowError for a negative x and for an x that does not fit n bytes, ValueError for n < 0 *)
+Definition py_to_bytes_big (x n : pv) : res pv :=
+  match as_int x, as_int n with
+  | Some v, Some k =>
+      if k <? 0 then Err EValue else if v <? 0 then Err EOverflow else if 2 ^ (8 * k) <=? v then Err EOverflow
+      else Ok (VBytes (to_be (Z.to_nat k) v))
+  | _, _ => Err EType
+  end.
+(* x.to_bytes(length=n, byteorder="little") *)
+Definition py_to_bytes_little (x n : pv) : res pv :=
+  match as_int x, as_int n with
+  | Some v, Some k =>
+      if k <? 0 then Err EValue else if v <? 0 then Err EOverflow else if 2 ^ (8 * k) <=? v then Err EOverflow
+      else Ok (VBytes (rev (to_be (Z.to_nat k) v)))
+  | _, _ => Err EType
+  end.
